@@ -83,6 +83,9 @@ def write_replay(prop: str, name: str, data: dict[str, Any]) -> str:
 def finish(ctx: Ctx, level: str = "model_checking") -> int:
     """Print verdict lines, write evidence, return the exit code."""
     known = [k for k in load_known() if k["property"] == ctx.prop and k.get("status") == "open"]
+    if REPLAY_DIR.is_dir():               # replay files of earlier runs of this property are stale now
+        for old in REPLAY_DIR.glob(f"{ctx.prop}_*.json"):
+            old.unlink()
     reported_known: dict[str, str] = {}
     violations: list[tuple[Finding, str]] = []
     seen_sig: set[str] = set()
